@@ -272,7 +272,7 @@ def domain(pname, rng, method=None):
         v = r.choice([0, 1, 1, 2, 3, 5, -1] if pname == "num_concurrent" else [0, 1, 1, 2, 3, 5, -1, 10])
         return v, str(v)
     if pname in ("group_name", "msg"):
-        v = r.choice(["g1", "g2", "grp", "apply-work-group-0", "x_y", "G", "7", "start-group-0"])
+        v = r.choice(["g1", "g2", "grp", "apply-work-group-0", "x_y", "G", "7", "start-group-0", "", "a\tb", "x\u00a0y", "ü\u3000z"])
         return v, v
     if pname == "value":
         v = r.choice([0, 1, 2, 3, 5, 10, -1, -7])
@@ -294,7 +294,7 @@ def rep_domain(pname, rng):
         v = [rng.choice([0, 0, 1, 1, 2, 3, 5, 17, -1]) for _ in range(rng.choice([0, 1, 1, 2, 3]))]
         return v, [str(x) for x in v]
     if pname == "group_names":
-        v = [rng.choice(["g1", "g2", "grp", "nope", "apply-work-group-0", "start-group-0", "map-one-group-0"]) for _ in range(rng.choice([0, 1, 1, 2]))]
+        v = [rng.choice(["g1", "g2", "grp", "nope", "apply-work-group-0", "start-group-0", "map-one-group-0", "", "a\tb"]) for _ in range(rng.choice([0, 1, 1, 2]))]
         return v, list(v)
     raise KeyError(pname)
 
@@ -357,7 +357,7 @@ def gen_command(cls, rng, helps=None, only=None, avoid=()):
                 v, t = domain_by_annotation(p, rng)
             pos.append(v)
             toks.append(t)
-        elif p.name == "return_exceptions":
+        elif p.name == "return_exceptions" or str(p.annotation) in ("bool", "<class 'bool'>"):
             if rng.random() < 0.5:
                 long, shorts = option_names(p.name, help_text)
                 opts.append([rng.choice([long] + shorts)])
@@ -382,6 +382,9 @@ def gen_command(cls, rng, helps=None, only=None, avoid=()):
         toks = toks + [x for o in opts for x in o]
     if tail:
         toks += tail[2]
+    if toks[-1] == "" or toks[-1].strip() != toks[-1]:
+        # a trailing empty / blank-edged token would be stripped with the line ending: not a well-formed line - draw again
+        return gen_command(cls, rng, helps=helps, only=only, avoid=avoid)
     c = Command(name, "method", " ".join(toks), pos=pos + list(varpos), kw=kw)
     return c
 
